@@ -156,18 +156,36 @@ _to_state_post = [
     'rows(result.gs) == rows(self.gs)', 'cols(result.gs) == cols(self.gs)', 'len(result.ps) == len(self.ps)',
     'forall(i, 0, rows(self.gs) // 2, forall(c, 0, cols(self.gs), result.gs[i][c] == self.gs[2 * i + 1][c] and result.gs[rows(self.gs) // 2 + i][c] == self.gs[2 * i][c]))',
     'forall(i, 0, rows(self.gs) // 2, result.ps[i] == self.ps[2 * i + 1] and result.ps[rows(self.gs) // 2 + i] == self.ps[2 * i])',
-    'fresh_loc(result.gs)', 'fresh_loc(result.ps)']
+    'fresh_loc(result.gs)', 'fresh_loc(result.ps)',
+    # C12 duality: the canonical commutation relations of the map (X_i / Z_i images) become the tableau structure of the state
+    # (stabilizer i = image of Z_i, destabilizer i = image of X_i: rows anticommute exactly with their partners)
+    'implies(gram_map(self.gs, rows(self.gs) // 2) and bits2(self.gs), gram(result.gs, rows(self.gs) // 2) and bits2(result.gs))']
+_tsN = 'rows(self.gs) // 2'
+_tsS = lambda a: '(2 * %s + 1 if %s < %s else 2 * (%s - %s))' % (a, a, _tsN, a, _tsN)      # state row a is map row sigma(a)
+_ts_hints = {'return': [
+    ('when?', 'gram_map(self.gs, %s) and bits2(self.gs)' % _tsN, []),
+    ('assert_from', 'forall(a, 0, 2 * (%s), forall(c, 0, cols(self.gs), result.gs[a][c] == self.gs[%s][c]))' % (_tsN, _tsS('a')),
+     [_to_state_post[3], 'rows(self.gs) == 2 * (%s)' % _tsN, 'cols(self.gs) == rows(self.gs)']),
+    ('assert_from', 'implies(gram_map(self.gs, %s) and bits2(self.gs), gram(result.gs, %s) and bits2(result.gs))' % (_tsN, _tsN),
+     ['forall(a, 0, 2 * (%s), forall(c, 0, cols(self.gs), result.gs[a][c] == self.gs[%s][c]))' % (_tsN, _tsS('a')),
+      'rows(self.gs) == 2 * (%s)' % _tsN, 'cols(self.gs) == rows(self.gs)', 'rows(result.gs) == rows(self.gs)', 'cols(result.gs) == cols(self.gs)', '%s >= 0' % _tsN,
+      'implies(gram_map(self.gs, %(N)s), forall(a, 0, 2 * (%(N)s), forall(b, 0, 2 * (%(N)s), AcqSum(self.gs[%(sa)s], self.gs[%(sb)s], %(N)s) %% 2 == '
+      'b2i(%(sb)s == partner(%(sa)s)))))' % dict(N=_tsN, sa=_tsS('a'), sb=_tsS('b')),
+      ('forall_lemma', [('a', '0', '2 * (%s)' % _tsN), ('b', '0', '2 * (%s)' % _tsN)], 'acqsum_ext', ['result.gs[a]', 'self.gs[%s]' % _tsS('a'), 'result.gs[b]', _tsN]),
+      ('forall_lemma', [('a', '0', '2 * (%s)' % _tsN), ('b', '0', '2 * (%s)' % _tsN)], 'acqsum_ext', ['result.gs[b]', 'self.gs[%s]' % _tsS('b'), 'self.gs[%s]' % _tsS('a'), _tsN])]),
+]}
+_ts_hints['return'] = _ts_hints['return'][1:]
 CONTRACTS[ST + 'CliffordMap.to_state#r'] = dict(
     params=[('self', CMAP), ('r', 'int')],
     requires=['rows(self.gs) == cols(self.gs)', 'cols(self.gs) % 2 == 0', 'len(self.ps) == rows(self.gs)'],
     ensures=_to_state_post + ['result.r == r'],
-    modifies=[], returns=STATE,
+    modifies=[], returns=STATE, hints=_ts_hints,
 )
 CONTRACTS[ST + 'CliffordMap.to_state#none'] = dict(
     params=[('self', CMAP), ('r', 'none')], defaults={'r': None},
     requires=['rows(self.gs) == cols(self.gs)', 'cols(self.gs) % 2 == 0', 'len(self.ps) == rows(self.gs)'],
     ensures=_to_state_post + ['result.r == 0'],
-    modifies=[], returns=STATE,
+    modifies=[], returns=STATE, hints=_ts_hints,
 )
 CONTRACTS[ST + 'StabilizerState.copy'] = dict(
     params=[('self', STATE)],
@@ -200,8 +218,16 @@ CONTRACTS[ST + 'identity_map'] = dict(
     requires=['N >= 0'],
     ensures=['rows(result.gs) == 2 * N', 'cols(result.gs) == 2 * N', 'len(result.ps) == 2 * N',
              'forall(i, 0, 2 * N, forall(c, 0, 2 * N, result.gs[i][c] == b2i(i == c)))',
-             'forall(i, 0, 2 * N, result.ps[i] == 0)'],
+             'forall(i, 0, 2 * N, result.ps[i] == 0)',
+             # the identity table satisfies the canonical commutation relations
+             'gram_map(result.gs, N)', 'bits2(result.gs)'],
     modifies=[], returns=CMAP,
+    hints={'return': [
+        ('assert_from', 'gram_map(result.gs, N)',
+         ['N >= 0', 'forall(i, 0, 2 * N, forall(c, 0, 2 * N, result.gs[i][c] == b2i(i == c)))',
+          ('forall_lemma', [('a', '0', '2 * N'), ('b', '0', '2 * N')], 'acqsum_ext', ['result.gs[b]', 'Unit(b, 2 * N)', 'result.gs[a]', 'N']),
+          ('forall_lemma', [('a', '0', '2 * N'), ('b', '0', '2 * N')], 'acq_unit', ['result.gs[a]', 'b', '2 * N', 'N'])]),
+    ]},
 )
 
 # ------------------------------------------------------------------ C05 / C06 / C14 / C17: measurement glue
@@ -485,7 +511,8 @@ CONTRACTS[ST + 'clifford_rotation_map'] = dict(
 _zs = ['rows(result.gs) == 2 * N', 'cols(result.gs) == 2 * N', 'len(result.ps) == 2 * N',
        # stabilizers Z_i in rows 0..N-1, destabilizers X_i in rows N..2N-1, all signs +
        'forall(i, 0, N, forall(c, 0, 2 * N, result.gs[i][c] == b2i(c == 2 * i + 1) and result.gs[N + i][c] == b2i(c == 2 * i)))',
-       'forall(i, 0, 2 * N, result.ps[i] == 0)']
+       'forall(i, 0, N, result.ps[i] == 0 and result.ps[N + i] == 0)',
+       'gram(result.gs, N)', 'bits2(result.gs)']
 CONTRACTS[ST + 'zero_state'] = dict(
     params=[('N', 'int')], requires=['N >= 0'], ensures=_zs + ['result.r == 0'], modifies=[], returns=STATE)
 CONTRACTS[ST + 'maximally_mixed_state'] = dict(
@@ -725,4 +752,21 @@ CONTRACTS[PA + 'PauliList.__getitem__#int'] = dict(
     requires=['0 <= item < rows(self.gs)', 'len(self.ps) == rows(self.gs)'],
     ensures=['len(result.g) == cols(self.gs)', 'forall(c, 0, cols(self.gs), result.g[c] == self.gs[item][c])', 'result.p == self.ps[item]'],
     modifies=[], returns=dict(PAULI, exact=False),
+)
+
+# measuring the stabilizers of another state (obs: StabilizerState -> its active stabilizers are the observables)
+CONTRACTS[ST + 'StabilizerState.measure#state'] = dict(
+    params=[('self', STATE), ('obs', STATE)],
+    requires=['cols(obs.gs) % 2 == 0', 'cols(obs.gs) == cols(self.gs)', _inv_self, 'inv_state(obs.gs, obs.ps, obs.r, cols(obs.gs) // 2)'],
+    ensures=[_inv_self, 'self.r <= old(self.r)', 'same_loc(self.gs, old(self.gs))', 'same_loc(self.ps, old(self.ps))',
+             'len(result[0]) == cols(self.gs) // 2 - old(obs.r)', 'forall(k, 0, len(result[0]), result[0][k] == 0 or result[0][k] == 1)'],
+    modifies=['self.gs', 'self.ps'], modifies_scalar=['self.r'], returns=('int1 fresh', 'real'),      # the code rebinds `obs`
+)
+
+# ------------------------------------------------------------------ C17: the bit-string probability is a query (receiver and argument unchanged)
+CONTRACTS[ST + 'StabilizerState.get_prob'] = dict(
+    params=[('self', STATE), ('readout', 'int1')],
+    requires=['cols(self.gs) % 2 == 0', 'cols(self.gs) >= 2', 'inv_state(self.gs, self.ps, 0, cols(self.gs) // 2)', 'self.r == 0',
+              'len(readout) == cols(self.gs) // 2', 'bits1(readout)'],
+    ensures=[], modifies=[], returns='real',
 )
